@@ -132,6 +132,23 @@ def run(tier, seed):
         if g.startswith("ok"):
             body = bytes.fromhex(g.split()[1]) if g.split()[1] != "-" else b""
             frames.append((libname(c), directions(c)[0], frame(libname(c), directions(c)[0], c["opcode"], body), c["key"] + "#bad", None))
+    # strings at the published limits: every login message with a CString / String member, one string of the frame 254..300 bytes long
+    # (the three variants have separate hand-written string readers; limits are where copies drift apart)
+    import pyenc
+    n_strlen = 0
+    for c in login:
+        nstr = sum(1 for t in c["tokens"] if t in ("cstring", "string"))
+        for k in range(min(nstr, 2 if tier == "quick" else 6)):
+            for n in (255, 256, 257) + ((254, 300) if tier != "quick" else ()):
+                try:
+                    body = pyenc.encode(c["tokens"], rng, 1, None, strlen=(k, n))
+                except (pyenc.Unsupported, OverflowError, ValueError):
+                    continue
+                try:
+                    frames.append((libname(c), directions(c)[0], frame(libname(c), directions(c)[0], c["opcode"], body), c["key"] + f"#strlen{n}", None))
+                    n_strlen += 1
+                except Exception:
+                    pass
     r = corpus_mod.Resolver()
     tv = test_vectors(r.objs)
     for lib, dr, bs, name in tv:
